@@ -16,3 +16,37 @@ def sep_char(c):
 def material_char(c):
     """a character that extends a word token"""
     return (not c.isspace()) and (c.isdigit() or c.isalpha()) and not is_cjk_code(ord(c))
+
+
+def expected_matches(phrases, ids, query):
+    """naive oracle: for every start i (ascending) and end j (ascending), the ids of all phrases equal to query[i:j]"""
+    out = []
+    for i in range(len(query)):
+        for j in range(i, len(query) + 1):
+            found = []
+            for k in range(len(phrases)):
+                p = phrases[k]
+                if len(p) == j - i:
+                    same = True
+                    for t in range(len(p)):
+                        if not (p[t] == query[i + t]):
+                            same = False
+                    if same:
+                        found.append(ids[k])
+            if len(found) > 0:
+                out.append((i, j - i, found))
+    return out
+
+
+def matches_equal(results, expected):
+    if len(results) != len(expected):
+        return False
+    for k in range(len(results)):
+        r = results[k]
+        e = expected[k]
+        if not (r.start == e[0] and r.length == e[1] and len(r.canonical_values) == len(e[2])):
+            return False
+        for t in range(len(e[2])):
+            if not (r.canonical_values[t] == e[2][t]):
+                return False
+    return True
